@@ -110,7 +110,7 @@ def decSettings : Dec Settings := do
          dontDelimitTrailingValues := f 7, allowMissingPositional := f 8, subcommandRequired := f 9,
          argRequiredElseHelp := f 10, subcommandNegatesReqs := f 11, disableHelpFlag := f 12,
          disableVersionFlag := f 13, disableHelpSubcommand := f 14, noBinaryName := f 15, hasVersion := f 16,
-         allowHyphenValues := f 17, allowNegativeNumbers := f 18 }
+         allowHyphenValues := f 17, allowNegativeNumbers := f 18, trailingVarArg := f 19 }
 
 def decCmd : Nat → Dec Cmd
   | 0 => failure
